@@ -23,6 +23,13 @@ package main
 // reader `case` that would have to handle it. Because both walkers visit everything, no
 // feature can be invisible to the projection; names on the memory side are derived from the
 // struct tags, values are read from the struct fields.
+//
+// A relationship id is not a value by itself: what the document says is what the id resolves
+// to. Both walkers therefore add, next to every r:embed of a blip and every r:id of a header /
+// footer reference, a derived slot ("@~media" = identity of the picture bytes, "@~part" = kind
+// and text of the referenced part) resolved through the relationship list and the parts of the
+// SAME source: the saved package on the XML side, the document's own relationship list and
+// part store on the memory side (rtResolver).
 
 import (
 	"crypto/sha1"
@@ -191,6 +198,7 @@ func rtMemStruct(f *rtFrame, v reflect.Value, path string) bool {
 			if fv.Kind() == reflect.String && fv.String() != "" && !rtSkipAttr(name, local) {
 				f.add(path+"@"+local, rtTok(fv.String()))
 				produced = true
+				rtDerived(f, rtMemRes, rtLastComp(path), local, path, fv.String())
 			}
 		case strings.Contains(opts, ",chardata"):
 			if fv.Kind() == reflect.String && fv.String() != "" {
@@ -304,6 +312,8 @@ func rtMemProj(d *document.Document, src map[interface{}]int) *rtProj {
 	if d == nil || d.Body == nil {
 		return p
 	}
+	rtMemRes = rtMemResolver(d)
+	defer func() { rtMemRes = nil }()
 	for _, el := range d.Body.Elements {
 		ev, ok := rtDeref(reflect.ValueOf(el))
 		if !ok || ev.Kind() != reflect.Struct {
@@ -358,7 +368,7 @@ func rtAllText(n *Node, sb *strings.Builder) {
 }
 
 type rtXCtx struct {
-	pkg *Pkg
+	res *rtResolver
 }
 
 func (x *rtXCtx) attrs(f *rtFrame, n *Node, path string) bool {
@@ -373,59 +383,109 @@ func (x *rtXCtx) attrs(f *rtFrame, n *Node, path string) bool {
 		}
 		f.add(path+"@"+a.Name.Local, rtTok(a.Value))
 		produced = true
-		if x.pkg != nil && a.Name.Local == "embed" && n.Local == "blip" {
-			f.add(path+"@~media", x.media(a.Value, relImage))
-		}
-		if x.pkg != nil && a.Name.Local == "id" && (n.Local == "headerReference" || n.Local == "footerReference") {
-			typ := relHeader
-			if n.Local == "footerReference" {
-				typ = relFooter
-			}
-			f.add(path+"@~part", x.partText(a.Value, typ))
-		}
+		rtDerived(f, x.res, n.Local, a.Name.Local, path, a.Value)
 	}
 	return produced
 }
 
-// media resolves a relationship id of the main part to the bytes of its target (xml-only slot)
-func (x *rtXCtx) media(id, typ string) string {
-	main := x.pkg.MainDocName()
-	for _, r := range x.pkg.Rels[RelsPartFor(main)] {
-		if r.ID == id {
-			if r.Type != typ {
-				return "wrong-type"
-			}
-			data, ok := x.pkg.Parts[ResolveTarget(main, r.Target)]
-			if !ok {
-				return "dangling"
-			}
-			h := sha1.Sum(data)
-			return fmt.Sprintf("%s:%d", hex.EncodeToString(h[:6]), len(data))
-		}
-	}
-	return "unresolved"
+// rtResolver resolves relationship ids of the main part within one source (package or document)
+type rtResolver struct {
+	rels  []Rel
+	parts map[string][]byte
+	main  string
 }
 
-func (x *rtXCtx) partText(id, typ string) string {
-	main := x.pkg.MainDocName()
-	for _, r := range x.pkg.Rels[RelsPartFor(main)] {
+// rtDerived adds the derived slot of a relationship-id attribute (elem = local name of the element)
+func rtDerived(f *rtFrame, res *rtResolver, elem, attr, path, id string) {
+	if res == nil {
+		return
+	}
+	switch {
+	case elem == "blip" && attr == "embed":
+		f.add(path+"@~media", res.media(id, relImage))
+	case elem == "headerReference" && attr == "id":
+		f.add(path+"@~part", res.partText(id, relHeader))
+	case elem == "footerReference" && attr == "id":
+		f.add(path+"@~part", res.partText(id, relFooter))
+	}
+}
+
+func rtLastComp(path string) string {
+	if i := strings.LastIndex(path, "/"); i >= 0 {
+		path = path[i+1:]
+	}
+	return rtIdx.ReplaceAllString(path, "")
+}
+
+func (x *rtResolver) target(id, typ string) ([]byte, string) {
+	for _, r := range x.rels {
 		if r.ID == id {
 			if r.Type != typ {
-				return "wrong-type"
+				return nil, "wrong-type"
 			}
-			data, ok := x.pkg.Parts[ResolveTarget(main, r.Target)]
+			if r.Mode == "External" {
+				return nil, "external"
+			}
+			data, ok := x.parts[ResolveTarget(x.main, r.Target)]
 			if !ok {
-				return "dangling"
+				return nil, "dangling"
 			}
-			root, err := ParseXML(data)
-			if err != nil {
-				return "ill-formed"
-			}
-			return rtTok(root.Local + ":" + root.WText())
+			return data, ""
 		}
 	}
-	return "unresolved"
+	return nil, "unresolved"
 }
+
+// media: identity of the bytes a relationship id of the main part resolves to
+func (x *rtResolver) media(id, typ string) string {
+	data, bad := x.target(id, typ)
+	if bad != "" {
+		return bad
+	}
+	h := sha1.Sum(data)
+	return fmt.Sprintf("%s:%d", hex.EncodeToString(h[:6]), len(data))
+}
+
+// partText: root element and text of the XML part a relationship id resolves to
+func (x *rtResolver) partText(id, typ string) string {
+	data, bad := x.target(id, typ)
+	if bad != "" {
+		return bad
+	}
+	root, err := ParseXML(data)
+	if err != nil {
+		return "ill-formed"
+	}
+	return rtTok(root.Local + ":" + root.WText())
+}
+
+// rtMemResolver reads the document's own relationship list of the main part (a private field;
+// read-only reflection, no accessor exists) and its part store (GetParts).
+func rtMemResolver(d *document.Document) *rtResolver {
+	res := &rtResolver{parts: d.GetParts(), main: "word/document.xml"}
+	v := reflect.ValueOf(d).Elem().FieldByName("documentRelationships")
+	if !v.IsValid() || v.Kind() != reflect.Ptr || v.IsNil() {
+		return res
+	}
+	rs := v.Elem().FieldByName("Relationships")
+	if !rs.IsValid() || rs.Kind() != reflect.Slice {
+		return res
+	}
+	str := func(e reflect.Value, n string) string {
+		if fv := e.FieldByName(n); fv.IsValid() && fv.Kind() == reflect.String {
+			return fv.String()
+		}
+		return ""
+	}
+	for i := 0; i < rs.Len(); i++ {
+		e := rs.Index(i)
+		res.rels = append(res.rels, Rel{ID: str(e, "ID"), Type: str(e, "Type"), Target: str(e, "Target"), Mode: str(e, "TargetMode")})
+	}
+	return res
+}
+
+// resolver of the memory walk in progress (the harness is single-threaded)
+var rtMemRes *rtResolver
 
 // node walks the children of node element n (frame f)
 func (x *rtXCtx) node(f *rtFrame, n *Node) {
@@ -490,7 +550,8 @@ func rtXMLProj(b []byte) (*rtProj, string) {
 	if err != nil {
 		return p, "xml"
 	}
-	x := &rtXCtx{pkg: pkg}
+	main := pkg.MainDocName()
+	x := &rtXCtx{res: &rtResolver{rels: pkg.Rels[RelsPartFor(main)], parts: pkg.Parts, main: main}}
 	for _, k := range body.Kids {
 		fr := &rtFrame{ents: rtNewEnts(), ord: map[string]int{}}
 		if k.Local == "sectPr" {
